@@ -95,3 +95,29 @@ Example C18_layer3_nonvacuous :
   end.
 Proof. vm_compute. repeat split. Qed.
 
+
+(* ------------------------------------------------------------------------------------------ *)
+(* The same on the C source of this run (translator/effects.py, gen/Gen_effects_ser.v,
+   Bridge_effects_ser.v): the plans generated from serialization.c contain no store to the item — the
+   translator reports every field a function writes (p_fields, SetInt / SetPtr), and the hand plans
+   they are bridge-equal to report none; the one effect is the payload copy into the BUFFER. *)
+From Coq Require Import ZArith String List.
+From CB Require Import HPlans HPlansSer HPlansSer_proofs Bridge_effects_ser.
+From CBGen Require Import Gen_effects_ser.
+Import ListNotations.
+Local Open Scope string_scope.
+
+Theorem C18_code_serializer_writes_nothing_to_the_item :
+  (forall ty bs c, p_fields (serialize_plan ty bs c) = [] /\ p_effs (serialize_plan ty bs c) = []) /\
+  (forall definite size k written bs c, p_effs (array_round_plan definite size k written bs c) = [] /\
+     forall nm v, In (nm, v) (p_fields (array_round_plan definite size k written bs c)) -> nm = "acc0" \/ nm = "round") /\
+  (forall text definite length bs c e, In e (p_effs (string_plan text definite length bs c)) ->
+     exists off n, e = CopyAt (PArg 1) off (PField item0 "data") n).
+Proof. exact code_serializer_writes_nothing_to_the_item. Qed.
+Print Assumptions C18_code_serializer_writes_nothing_to_the_item.
+
+Theorem C18_code_array_round_plan : forall al definite e bs k a c,
+  (e < 2^64)%N -> (bs < 2^64)%N -> (k <= e)%N -> (a < 2^64)%N -> (c < 2^64)%N ->
+  Gcbor_serialize_array_loop0 al (dst_z definite) (Z.of_N e) (Z.of_N bs) (Z.of_N k) (Z.of_N a) (Z.of_N c) =
+  array_round_plan definite e k a bs c.
+Proof. exact bridge_plan_serialize_array_round. Qed.
